@@ -5,7 +5,9 @@ import FxVerif.Model.Util
 
 ops (all numbers decimal; lists comma separated, `-` = empty):
   reset <threshold> <multiple> <slashFracMantissa> [<chain> <signedWindow> <nOracles>]
-  claim <wrapperBridger> <innerBridger> <nonce> <hashId> <kind: p | c | r | o | s:<extIds>> <extHeight>
+  claim <wrapperBridger> <innerBridger> <nonce> <hashId> <kind: p | c | r | o | e | s:<extIds> | x | x:<extIds>> <extHeight>
+  tx <slashed> <oracleSetReq> <bond … | adddel … | unbond … | nop>   the registry message as a signed transaction + that block's end blocker
+  txclaim <wrapperBridger> <innerBridger> <nonce> <hashId> <kind> <extHeight> <slashed> <oracleSetReq>   the claim as a signed transaction + that block's end blocker
   bond <oracle> <bridger> <ext> <amount> <dep>
   adddel <oracle> <amount> <dep>
   editbr <oracle> <bridger>
@@ -30,7 +32,10 @@ def bool? (w : String) : Option Bool :=
 def kind? (w : String) : Option Kind :=
   if w == "p" || w == "c" || w == "r" then some .pending   -- send-to-fx / bridge-call / bridge-call-result claim: all parked for later execution
   else if w == "o" then some .other
+  else if w == "e" then some .other                                  -- send-to-external (batch executed) claim whose batch is in the store
   else if w.startsWith "s:" then (natList? (w.drop 2).toString).map Kind.oracleSet
+  else if w == "x" then some (.panics [])                            -- handler panics when run (batch not in the store)
+  else if w.startsWith "x:" then (natList? (w.drop 2).toString).map Kind.panics   -- oracle-set claim contradicting the stored set
   else none
 
 def outcome? (c : Char) : Option Outcome :=
@@ -87,6 +92,7 @@ def showOut : Out → String
   | .ok => "ok" | .signerMismatch => "err:signer-mismatch" | .noOracle => "err:no-oracle" | .offline => "err:offline"
   | .invalid => "err:invalid" | .nonContiguous => "err:non-contiguous" | .belowMin => "err:below-min"
   | .aboveMax => "err:above-max" | .dep => "err:dep" | .notFound => "err:not-found" | .execFailed => "err:exec-failed"
+  | .panicked => "panic" | .undeliverable => "err:undeliverable"
 
 def joinOr (xs : List String) (sep : String) : String := if xs.isEmpty then "-" else sep.intercalate xs
 
@@ -132,6 +138,34 @@ def stepLine (d : DS) (line : String) : DS × String :=
   | ["genesis"] =>
     let (s', o) := gstep s .genesis
     ({ d with cur := s' }, showOut o ++ " " ++ showState s' ++ " ev=-")
+  | ["txclaim", w, i, n, h, k, _e, sl, osr] =>
+    -- a signed MsgClaim transaction in a block of its own, then that block's end blocker
+    match w.toNat?, i.toNat?, n.toNat?, h.toNat?, kind? k, natList? sl, bool? osr with
+    | some w, some i, some n, some h, some k, some sl, some osr =>
+      let (s1, o) := txClaimStep s w i n h k
+      let (s', _) := endBlockStep s1 sl osr
+      let added := s'.observedLog.drop s.observedLog.length
+      let ev := if added.isEmpty then "-" else "+".intercalate (added.map fun p => s!"{p.1}/{p.2}")
+      ({ d with cur := s' }, showOut o ++ " " ++ showState s' ++ " ev=" ++ ev)
+    | _, _, _, _, _, _, _ => (d, "bad-op")
+  | "tx" :: sl :: osr :: rest =>
+    -- a registry message delivered as a signed transaction in a block of its own, then that block's end blocker;
+    -- `nop`: the transaction was refused by the ante handler (not signed by the oracle account, fee not payable)
+    match natList? sl, bool? osr with
+    | some sl, some osr =>
+      let r : Option (State × String) :=
+        if rest == ["nop"] then some (s, "err:refused")
+        else match parseOp rest with
+          | some (.bond o b e a dd) => some ((step s (.bond o b e a dd)).1, showOut (step s (.bond o b e a dd)).2)
+          | some (.addDelegate o a dd) => some ((step s (.addDelegate o a dd)).1, showOut (step s (.addDelegate o a dd)).2)
+          | some (.unbond o u bal dd) => some ((step s (.unbond o u bal dd)).1, showOut (step s (.unbond o u bal dd)).2)
+          | _ => none
+      match r with
+      | some (s1, o) =>
+        let (s', _) := endBlockStep s1 sl osr
+        ({ d with cur := s' }, o ++ " " ++ showState s' ++ " ev=-")
+      | none => (d, "bad-op")
+    | _, _ => (d, "bad-op")
   | ws =>
     match parseOp ws with
     | some op =>
